@@ -1361,7 +1361,7 @@ func (c15WrappedSend) Gen(c *gen.Ctx) []gen.Tx {
 func init() {
 	Register(&ClusterProp{
 		Id: "C15",
-		RuleText: "each run: one real replica (a witness validator or an unrelated node), 4-7 genesis validators of which 4-7 are Ethereum witnesses, 40-70 blocks; generator `eth` crafts signed raw Ethereum transactions the repository's own parsers accept, submits ETH_LOCK / ERC20_LOCK / ETH_REDEEM / ERC20_REDEEM " +
+		RuleText: "each run: one real replica (a witness validator or an unrelated node), 1-7 genesis validators of which 4-7 (1 run in 8: 1-3) are Ethereum witnesses, 40-70 blocks; generator `eth` crafts signed raw Ethereum transactions the repository's own parsers accept, submits ETH_LOCK / ERC20_LOCK / ETH_REDEEM / ERC20_REDEEM " +
 			"(incl. duplicates in the same and later blocks, replays of ongoing/passed/failed ones, front-running, supply races, malformed embeddings) and plays the witnesses with ETH_REPORT_FINALITY_MINT in random orders: honest yes/no, minorities and blocking coalitions lying about Success or about the Locker, reports in the creating block, wrong/out-of-range index, second votes, non-witness validators, users, forged signers; " +
 			"`send` plus a wrapped-token transfer generator keep balances moving. A reference model built only from decoded transactions, harness-verified signers, result codes and the tracker/witness/balance records of the state dump of every block keeps per tracker: owner (= submitter), amount (own rlp+abi decoding of the embedded transaction), recorded witnesses, first valid vote per witness. " +
 			"Oracles per block: every wrapped credit that is not a transfer is the mint of a lock whose yes-count is > 2/3 of the recorded witnesses (once per Ethereum transaction, exact amount, to the submitter) or the refund of a redeem whose no-count is > 2/3 (once, exact amount, to the owner; must happen within 5 blocks); the creating block debits a redeem's owner by exactly the decoded amount; " +
@@ -1374,6 +1374,9 @@ func init() {
 			k.NumWitnesses = 4 + rng.Intn(4)
 			if rng.Intn(3) == 0 {
 				k.NumWitnesses = 5 + rng.Intn(3)
+			}
+			if rng.Intn(8) == 0 {
+				k.NumWitnesses = 1 + rng.Intn(3) // tiny witness sets: one report decides
 			}
 			k.NumValidators = k.NumWitnesses + rng.Intn(3)
 			if k.NumValidators > 7 {
